@@ -150,7 +150,9 @@ def target_array(res):
 def as_int(a, flag):
     """integer dtype for integer-valued real arrays if requested (the library accepts any numeric dtype; mixed dtypes of
     the arguments of one call are part of the input space)"""
-    if flag and not np.iscomplexobj(a) and np.all(a == np.round(a)) and np.max(np.abs(a)) < 2**40:
+    # integer arrays only while every product of up to four coordinates (and the sum of 24 of them) stays inside int64:
+    # numpy integer arithmetic wraps silently, such magnitudes are outside the moderate range this check explores
+    if flag and not np.iscomplexobj(a) and np.all(a == np.round(a)) and np.max(np.abs(a)) < 2**14:
         return a.astype(np.int64)
     return a
 
